@@ -379,14 +379,14 @@ def prod_model_ops(rng, tier):
             res.append(("contains %s %s" % (c, pa(P)), ["contains", name, P], False))
         # cheap scalars (cost is proportional to the bit length of e mod n)
         for P in [G, Q, None, Gu]:
-            for e in [0, 1, 2, 3, 7, n, n + 1, n + 2, -n, 2 * n + 5, -n + 3, 65537]:
+            for e in [0, 1, 2, 3, n, n + 1, n + 2, -n, 2 * n + 5, -n + 3] + ([7, 65537] if tier == "thorough" else []):
                 res.append(("multiply %s %s %s" % (c, pa(P), arg(e)), ["multiply", name, P, e], False))
         res.append(("multiply %s %s %s" % (c, pa(G), arg(6)), ["multiply_self", name, 6], False))
         res.append(("shared %s %s %s %s" % (g, arg(7), arg(Q[0]), arg(Q[1])), ["shared", name, 7, Q[0], Q[1]], False))
         res.append(("shared %s %s %s %s" % (g, arg(7), arg(Q[0]), arg(Q[1] + 1)), ["shared", name, 7, Q[0], Q[1] + 1], False))
-        for x in [G[0], G[0] + p, Q[0], 0, 1, 2, 3, 5, p - 1, -1] + ([rng.getrandbits(255) for _ in range(4)] if tier == "thorough" else []):
+        for x in [G[0], G[0] + p, 0, 5, p - 1, -1] + ([Q[0], 1, 2, 3] + [rng.getrandbits(255) for _ in range(4)] if tier == "thorough" else []):
             res.append(("points_for_x %s %s" % (g, arg(x)), ["points_for_x", name, x], False))
-        for v in [0, 1, 4, G[1] * G[1], p - 1, -4]:
+        for v in [4, G[1] * G[1], -4] + ([0, 1, p - 1] if tier == "thorough" else []):
             res.append(("modular_sqrt %s %s" % (g, arg(v)), ["modular_sqrt", name, v], False))
         for (v, m) in [(1, p), (2, p), (-1, p), (p - 1, p), (p + 1, p), (2 ** 255, p), (rng.getrandbits(256), p),
                        (-rng.getrandbits(256), p), (3 * p + 5, p), (2, n), (n - 1, n), (rng.getrandbits(300), n)]:
@@ -410,9 +410,11 @@ def prod_model_ops(rng, tier):
                 exp += [("multiply", R, rng.getrandbits(256) - 2 ** 255) for _ in range(8)]
                 exp += [("raw_mul", None, rng.getrandbits(300)) for _ in range(4)]
         else:
-            exp = [("multiply", Q, n - 1), ("raw_mul", None, big)]
+            # 381-bit field: ~48 s per full-size scalar; the quick tier uses a 64-bit scalar
+            exp = [("multiply", Q, rng.getrandbits(64) | (1 << 63))]
             if tier == "thorough":
-                exp += [("multiply", R, 2 ** 256 - 1), ("multiply", Q, -1), ("gmul", None, big), ("raw_mul", None, -1)]
+                exp += [("multiply", Q, n - 1), ("raw_mul", None, big), ("multiply", R, 2 ** 256 - 1), ("multiply", Q, -1),
+                        ("gmul", None, big), ("raw_mul", None, -1)]
                 exp += [("multiply", R, rng.getrandbits(256) - 2 ** 255) for _ in range(4)]
         for kind, P, e in exp:
             if kind == "multiply":
@@ -427,6 +429,16 @@ def prod_model_ops(rng, tier):
                 res.append(("mk_gen %s %s %s %s %s %s %s" % (arg(p), arg(a), arg(b), arg(G[0]), arg(G[1]), arg(n), arg(e)),
                             ["mk_gen", p, a, b, G[0], G[1], n, e], True))
     return res
+
+
+def known_unreduced_identity(op):
+    """exclusion predicate of the known finding `unreduced-times-one`: scalar = 1 (mod n) applied to a finite point
+    whose coordinates are not reduced mod p.  Pure Python returns the operand as given, OpenSSL the reduced pair."""
+    if op[0] not in ("multiply", "rmultiply", "curve_multiply") or not isinstance(op[1], str) or op[2] is None:
+        return False
+    p, a, b, n, G, bits = prod_params(op[1])
+    P = op[2]
+    return op[3] % n == 1 and not (0 <= P[0] < p and 0 <= P[1] < p)
 
 
 def prod_model_cases(rng, tier):
@@ -445,6 +457,8 @@ def prod_model_cases(rng, tier):
             f = out["none"][len(items) + PROD.index(name)]
             blind = int(f.rstrip(")").split(" ")[-1][1:], 16)
             line = "gmul %s %s" % (gv(p, a, b, n, G, bits, blind), arg(op[2]))
+        if ro != rn and known_unreduced_identity(op):
+            ro = rn        # known finding (reported by the direct checks): the model follows the pure-Python code
         impl = ro if ro == rn else "!CONFIG-MISMATCH openssl=%s none=%s" % (ro, rn)
         cases.append((expensive, Case(line, (lambda impl=impl: impl), meta={"op": op})))
     # expensive lines first so that the driver's round-robin spreads them over its workers
@@ -635,7 +649,10 @@ def prod_judge(inp, res):
     p, a, b, n, G, bits = prod_params(name)
     ro, rn = res["openssl"], res["none"]
     if ro != rn:
-        return {"kind": "backend-mismatch", "openssl": ro, "none": rn}
+        ops = prod_check_ops(inp)
+        bad = [i for i in range(len(ro)) if ro[i] != rn[i]]
+        return {"kind": "backend-mismatch", "openssl": [ro[i] for i in bad], "none": [rn[i] for i in bad],
+                "all_known_unreduced_identity": all(known_unreduced_identity(ops[i]) for i in bad)}
     r = ro
     if kind == "add":
         P, Q = inp["P"], inp["Q"]
@@ -723,6 +740,7 @@ def prod_prop_inputs(rng, tier):
             inputs.append({"curve": name, "kind": "gen", "k": k})
             inputs.append({"curve": name, "kind": "gen", "k": -k})
         inputs.append({"curve": name, "kind": "mul", "P": None, "k": 5})
+        inputs.append({"curve": name, "kind": "mul", "P": Gu, "k": 1})
         for x in [G[0], Q[0], 0, 1, 2, 3, 4, 5, p - 1] + [rng.getrandbits(255) for _ in range(20 if tier == "quick" else 300)]:
             inputs.append({"curve": name, "kind": "pfx", "x": x})
         for _ in range(3 if tier == "quick" else 30):
@@ -783,10 +801,18 @@ def replay_input(check, inp):
 
 
 def classify(pc, r):
+    if pc.name == "prod" and r.get("kind") == "backend-mismatch" and r.get("all_known_unreduced_identity"):
+        return "unreduced-times-one"
     return None
 
 
-KNOWN_REPLAYS = {}
+def _replay_unreduced_times_one():
+    from pycoin.ecdsa.secp256k1 import secp256k1_generator as g
+    p = g.p()
+    return chk_prod({"curve": "secp256k1", "kind": "mul", "P": [g[0] + p, g[1]], "k": 1})
+
+
+KNOWN_REPLAYS = {"unreduced-times-one": _replay_unreduced_times_one}
 
 
 def search(rng, tier, disagreements, known_ids):
